@@ -42,6 +42,15 @@ Verdicts(o) ==
              ELSE IF o.inexact > 0 THEN {Fail("C14", "off-grid", "")}
              ELSE IF o.series = Expected(o) THEN {} ELSE {Fail("C14", "series", "")})
        \cup (IF o.case.exact \/ (Has(o.case, "nocount") /\ o.case.nocount) \/ Len(o.series) = Len(Expected(o)) THEN {} ELSE {Fail("C14", "count", "")})
+       (* additive / subtractive series with decimal parameters: the number of levels is ceil((max - min) / coefficient), *)
+       (* give or take one when a level lands on the bound up to float rounding                                      *)
+       \cup (LET lv == o.case.lv
+                 c == lv.params.coefficient
+                 span == lv.params.maxValue - lv.params.minValue
+                 n == IF span <= 0 THEN 0 ELSE (span + c - 1) \div c
+             IN IF ~o.case.exact /\ lv.function \in {"idealAdditiveCoefficient", "idealSubtractiveCoefficient"}
+                   /\ ~(Len(o.series) >= n - 1 /\ Len(o.series) <= n + 1)
+                THEN {Fail("C14", "count", "")} ELSE {})
        (* every threshold lies inside the criterion's range (the ratio stays in [0,1]) *)
        \cup (IF \A k \in DOMAIN o.series : \A j \in DOMAIN o.case.lv.criteria :
                    LET c == CritOf(o.case.lv.criteria[j])
